@@ -477,8 +477,18 @@ def run(ctx):
     cases = []
     if drv and not ctx.replay:
         run_subsamp(ctx, exes[flavours[0]], drv)
+    if not ctx.replay:
+        run_histories(ctx, exes[flavours[0]])
     if ctx.replay:
         r = json.load(open(ctx.replay))
+        if r.get("hist"):
+            rc, out, err = sh2([exes[flavours[0]]], input=(r["hist"] + "\n").encode(), timeout=600)
+            parts = out.decode("latin1").strip().split(" ; ")
+            ctx.count("history", 1, None)
+            if rc != 0 or len(parts) != 3 or parts[1] != parts[2]:
+                ctx.violation("history replay: step 2 on the same instance differs from a fresh instance (or crashed, rc=%d)" % rc,
+                              {"hist": r["hist"]}, signature="history:replay")
+            return
         if r.get("case"):
             cases.append((r["case"], "replay", {"identity": bool(r.get("identity"))}))
         return run_cases(ctx, cases, exes, drv, flavours)
@@ -497,6 +507,78 @@ def run(ctx):
         if i % 5 == 0:
             cases.append(gen_reslot(rng))
     return run_cases(ctx, cases, exes, drv, flavours)
+
+
+def run_histories(ctx, exe):
+    """two-step histories on ONE TurboJPEG instance: a transform of image A that is rejected / fails (unaligned crop,
+    region outside the image, imperfect + TJXOPT_PERFECT, destination buffer too small, or succeeds for contrast) through
+    tj3Transform or the legacy tjTransform, with or without caller-owned buffers (NOREALLOC), then a transform of a
+    DIFFERENT image B on the same instance.  Model-free oracle: step 2 must equal the same transform of B on a fresh
+    instance, coefficient-exact (the result is a function of THIS call's source)."""
+    rng = ctx.rng.fork()
+    lines, metas = [], []
+
+    def source(rng):
+        name = rng.choice(["444", "422", "420", "440", "411", "gray"])
+        fac, cs = STD[name], (1 if name == "gray" else 3)
+        iw, ih = 8 * fac[0][0], 8 * fac[0][1]
+        W = rng.range(1, 3) * iw + rng.choice([0, 0, rng.range(1, iw - 1)])
+        H = rng.range(1, 3) * ih + rng.choice([0, 0, rng.range(1, ih - 1)])
+        toks = [W, H, 8, cs, len(fac)] + [v for f in fac for v in f] + [1, rng.choice([0, 1, 2, 3]), 40, rng.next() % (1 << 40)]
+        return toks, W, H, fac, cs
+
+    for i in range(ctx.n(160, 3000)):
+        ta, W, H, fac, cs = source(rng)
+        tb, W2, H2, fac2, cs2 = source(rng)
+        op = rng.below(8)
+        dw, dh = (H, W) if op in TRANSPOSING else (W, H)
+        imw, imh = dst_imcu(fac, cs, [op, 0, 0, 0])
+        kind = rng.choice(["unaligned", "unaligned", "outside", "imperfect", "toosmall", "fine"])
+        xa = [op, 0, 0, 0, 0, 0, 0, 0, 0, 0, 0, 0, 0, 0]
+        small = 0
+        if kind == "unaligned":
+            xa[4:13] = [1, 0, 0, 0, 0, rng.range(1, 7), 1, rng.choice([0, 8 * rng.range(0, 2) + 4]), 1]
+        elif kind == "outside":
+            xa[4:13] = [1, 8, 1, 8, 1, (dw // imw + 2) * imw, 1, 0, 1]
+        elif kind == "imperfect":
+            xa[0], xa[1] = rng.choice([1, 2, 4, 5, 6, 7]), 1
+        elif kind == "toosmall":
+            small = 1
+        api1 = rng.below(2)
+        nr1 = 1 if (small or rng.chance(2, 3)) else 0
+        if small:
+            api1 = 0
+        api2, nr2 = rng.below(2), rng.below(2)
+        xb = gen_xf(rng, 0, W2, H2, fac2, cs2, True, force_plain=rng.chance(1, 2))
+        lines.append("hist %d %d %d %d %d %s %s %s %s" % (api1, nr1, small, api2, nr2, " ".join(map(str, ta)), " ".join(map(str, xa)),
+                                                        " ".join(map(str, tb)), " ".join(map(str, xb))))
+        metas.append((kind, api1, nr1))
+    rc, out, err = sh2([exe], input=("\n".join(lines) + "\n").encode(), timeout=1800)
+    ol = out.decode("latin1").split("\n")
+    if rc != 0 or len(ol) < len(lines):
+        k = min(len(ol), len(lines)) - 1
+        ctx.violation("implementation crashed/aborted in a two-step history (rc=%d): %s" % (rc, err[-300:]),
+                      {"hist": lines[max(k, 0)], "stderr": err[-1500:]}, signature="crash:history")
+        return
+    dist = {}
+    for l, o, (kind, api1, nr1) in zip(lines, ol, metas):
+        parts = o.split(" ; ")
+        if len(parts) != 3 or not parts[0].startswith("H "):
+            ctx.count("history:unusable", 1, None)
+            continue
+        first = parts[0][2:]
+        key = "history:%s:%s%s:first=%s" % (kind, ["tj3", "legacy"][api1], "+norealloc" if nr1 else "", first.split(":")[0])
+        dist[key] = dist.get(key, 0) + 1
+        ctx.count("history", 1, zlib.crc32(o.encode()))
+        if parts[1] != parts[2]:
+            a, b = parse_image(parts[1][5:]) if parts[1].startswith("ok | ") else None, parse_image(parts[2][5:]) if parts[2].startswith("ok | ") else None
+            what = ("after a %s transform of another image (%s%s, result %s) the next transform on the same instance %s"
+                    % (kind, ["tj3Transform", "tjTransform"][api1], " with NOREALLOC" if nr1 else "", first,
+                       "yields a %dx%d image although its source is %dx%d" % (a["W"], a["H"], b["W"], b["H"]) if a and b and (a["W"], a["H"]) != (b["W"], b["H"])
+                       else "differs from the same transform on a fresh instance (%s vs %s)" % (parts[1][:30], parts[2][:30])))
+            ctx.violation(what, {"hist": l, "same_instance": parts[1][:300], "fresh_instance": parts[2][:300]},
+                          signature="history:%s:%s" % (kind, ["tj3", "legacy"][api1]))
+    ctx.cov["history_distribution"] = dict(sorted(dist.items()))
 
 
 def run_subsamp(ctx, exe, drv):
